@@ -484,6 +484,52 @@ def valgrind_pass(ctx, quick):
     ctx.cov["correspondence"]["valgrind"] = {"inputs": len(files), "errors": len(seen)}
 
 
+def stayin_stream(ctx, real, quick):
+    """TESTING of the hypothesis of `C05_readData2_skeleton_partial` / `C05_readInstance_slip_partial` on the real record readers
+    (STEPread of entities with attributes, of the entity without, STEPcomplex::STEPread - none of them modelled here): on
+    damaged records - every truncation and every single insertion of a punctuation token into six kinds of record, followed
+    by two intact records - `STEPread` + `ReadTokenSeparator` must not stop beyond the end of the NEXT record as SkipInstance
+    finds it from the record's start (prd <= p2: cost <= 2 records); how often it stops beyond its own record (prd > p1, the
+    one-record slip) is counted."""
+    recs = [b"POINT(1.5,-2.0E+1)", b"KINDS(7,1.25E-3,42,'it''s',.T.,.U.,.GREEN.,\"1F\",#1,LEN(2.5),(1.,2.5,-3.),((1,2),(3)),(#1,#1),$,('a','b'))",
+            b"DPOINT(4.0,*)", b"BARE()", b"(A1(2.5)B1(.BLUE.)BASE(9)C1((1,2,3)))", b"KINDS(0,0.,0,'x',.T.,.T.,.BLUE.,\"3ABC\",#1,LABEL('x'),(0.5),((0)),(#1),$,('\\\\'))"]
+    ins = [b"(", b")", b"'", b";", b",", b"/*", b"\"", b"$", b"#1", b"x", b"*/", b" "]
+    tail = b";\n#8=POINT(1.,2.);\n#9=KINDS($,$,$,'s;',$,$,$,$,$,$,$,$,$,$,$);\n#10=BARE();\n"
+    reqs = []
+    for rec in recs:
+        reqs.append(rec + tail)
+        for kk in range(1, len(rec) + 1):
+            reqs.append(rec[:kk] + tail)
+            if quick and kk % 3:
+                continue
+            for x in ins:
+                reqs.append(rec[:kk] + x + rec[kk:] + tail)
+    ans = real.run_fn([f"stayin {hexs(d)}" for d in reqs])
+    slips, bad = 0, 0
+    for d, a in zip(reqs, ans):
+        ctx.count(1, key=("stayin", d))
+        ctx.hist("function-level", "stayin")
+        if isinstance(a, dict):
+            ctx.violation(f"fn:stayin:{a['fail']}@{a['where']}", f"record reader on {d[:70]!r}: {a['fail']} in {a['where']}",
+                          {"kind": "fn", "schema": real.schema, "request": f"stayin {hexs(d)}", "sanitizer": a["err"][-1200:]})
+            continue
+        mm = re.search(r"p1=(-?\d+) p2=(-?\d+) prd=(-?\d+)", a or "")
+        if not mm:
+            continue
+        p1, p2, prd = (int(x) for x in mm.groups())
+        if prd > p1:
+            slips += 1
+        if prd > p2 and bad < 3:
+            bad += 1
+            ctx.violation("time:record-reader-leaves-the-next-record",
+                          f"STEPread on the record {d[:80]!r}… stops at offset {prd}, beyond the end of the next record ({p2}; its own "
+                          f"record ends at {p1}): ReadInstance resumes behind the record's `;`, so the bytes between are read once per "
+                          "damaged record (time not proportional to the input)",
+                          {"kind": "fn", "schema": real.schema, "request": f"stayin {hexs(d)}", "expect": "prd <= p2"})
+    ctx.cov["correspondence"]["record readers stay within two records (testing)"] = {"records": len(reqs), "one-record slips": slips, "beyond": bad}
+    return bad == 0
+
+
 def stream_kind(ctx, real, quick):
     """The function-level correspondence runs on std::istringstream, the file-level reader on std::ifstream.  A filebuf reads
     block-wise and has a one-byte putback area at a block boundary (and its pbackfail accepts a *different* character,
@@ -1410,6 +1456,7 @@ def run(ctx):
             function_level(ctx, real, quick, k)
             stream_kind(ctx, real, quick)
             pass2_stream(ctx, real, quick)
+            stayin_stream(ctx, real, quick)
         file_level(ctx, real, files, quick, ms_per_byte)
         attr_exhaustive(ctx, real, quick, ms_per_byte)
         aggr_exit_stream(ctx, real, quick, ms_per_byte)
